@@ -22,6 +22,7 @@ func init() {
 
 func runC06(c *engine.Ctx, tier string) {
 	c.Al = proposalAliases(c.P)
+	appliedRecordsEverything(c)
 	inValidate := "err(@P) == nil && @P.Status.Phases.Apply == nil && @P.Status.Phases.Abort == nil && @P.Status.Phases.Commit == nil && @P.Status.Phases.Validate != nil && @P.Status.Phases.Validate.State == config/v2.ProposalValidatePhase_VALIDATING && err(@CFG) == nil && ok(@PLUGIN) && type(@P.Details) == *config/v2.Proposal_Rollback"
 	validated := engine.Sel{Field: "config/v2.ProposalValidatePhase.State", RHS: "config/v2.ProposalValidatePhase_VALIDATED"}
 	failed := engine.Sel{Field: "config/v2.ProposalValidatePhase.State", RHS: "config/v2.ProposalValidatePhase_FAILED"}
@@ -306,5 +307,65 @@ func proposalRecords(c *engine.Ctx, idChange, idRollback string) {
 			}
 		}
 		o.Done(h.min)
+	}
+}
+
+// appliedRecordsEverything: C06.8 (seed C06-r42). What was sent to the device is recorded in the applied values
+// entry by entry, unconditionally: a rollback restores values that carry OLDER indexes (or none), so a recording
+// loop that skips "older" values leaves the rolled-back change in the applied values, and the next
+// re-synchronisation pushes it to the device again.
+func appliedRecordsEverything(c *engine.Ctx) {
+	o := c.Custom("C06.8", "K-must(per entry)", "reconcileApply: every iteration of the loop over the values that were sent records its entry in Status.Applied.Values (directly or through applyChangeToConfig) — no condition, no continue before the recording",
+		"once applied, the device AND the applied configuration are what they were before the change: the applied values are what is pushed again in a new term")
+	defer o.Done(1)
+	paths, err := c.A.Paths(pkgProposalCtl)
+	if err != nil {
+		o.Undecided(pkgProposalCtl, err.Error())
+		return
+	}
+	reported := false
+	for _, p := range paths {
+		if p.Lit != nil {
+			continue
+		}
+		for i := range p.Events {
+			le := &p.Events[i]
+			if le.Kind != engine.EvLoopEnter || !strings.Contains(le.Range, "AddDeleteChildren(") {
+				continue
+			}
+			records, condBefore, iterated, exit := -1, false, false, -1
+			for j := i + 1; j < len(p.Events); j++ {
+				e := &p.Events[j]
+				if e.Kind == engine.EvLoopExit && e.Node == le.Node {
+					exit = j
+					break
+				}
+				iterated = true
+				isRec := e.Kind == engine.EvCall && strings.HasSuffix(e.CalleeName, ".applyChangeToConfig") && len(e.Args) > 0 && strings.HasSuffix(stripVer(e.Args[0]), ".Status.Applied.Values") ||
+					e.Kind == engine.EvWrite && strings.Contains(e.LHS, ".Status.Applied.Values[")
+				if isRec && records < 0 {
+					records = j
+				}
+				if records < 0 && e.Loops == le.LoopID && (e.Kind == engine.EvCond || e.Kind == engine.EvBranch) {
+					condBefore = true
+				}
+			}
+			if !iterated || exit < 0 {
+				continue
+			}
+			// only the loop that records (the loop that builds the request ranges over the same values)
+			recordingLoop := records >= 0
+			if !recordingLoop {
+				// a recording loop on another path of the same loop node?
+				continue
+			}
+			o.Site(c.P.Pos(le.Pos) + " recording loop of reconcileApply")
+			o.Eval(1)
+			if condBefore && !reported {
+				reported = true
+				o.Fail(&engine.Violation{Key: "Reconciler.reconcileApply|applied values recorded conditionally", Pos: c.P.Pos(le.Pos), Func: engine.FuncChain(p, i),
+					Msg: "an entry of the values sent to the device can be left out of Status.Applied.Values (a condition or continue precedes the recording inside the loop): a restored older value is skipped and the rolled-back change stays in the applied configuration"})
+			}
+		}
 	}
 }
